@@ -217,6 +217,9 @@ func runScenario(c *lib.Case) {
 		if rng.Intn(2) == 0 {
 			pol.tags = []string{sc.shared[rng.Intn(len(sc.shared))]}
 		}
+		if pol.refuse {
+			pol.refuseErr = dialErrs[rng.Intn(len(dialErrs))]
+		}
 		e.mu.Lock()
 		e.dialPol[p] = pol
 		e.mu.Unlock()
